@@ -40,6 +40,9 @@ SEMANTIC = {
     "undefined-pointer-list": ".pointer 0x01, undef_zz + 1",
     "undefined-indexed-operand": "sta.l undef_zz,x",
     "undefined-immediate": "lda.b #undef_zz & 0xff",
+    # a statement written over several lines (a value list goes on after a comma): its line is the line it starts on
+    "undefined-in-continued-list": ".dw 1,\n    2,\n    undef_zz",
+    "undefined-in-continued-list-middle": ".dl 0x123456,\n  undef_zz + 1,\n  3",
 }
 LEXICAL = {
     "bad-suffix": "lda.q 5",
@@ -163,12 +166,12 @@ def check_one(out, case, sub):
     stmt_text = SEMANTIC.get(fault) or LEXICAL[fault]
     line_text = sub["indent"] + stmt_text + sub["tail"]
     ir = copy.deepcopy(case["ir"])
-    marker = {"k": "raw", "lines": [line_text], "_marker": True}
+    marker = {"k": "raw", "lines": [line_text], "_marker": True}  # (a statement of several lines is one entry: nothing is put between its lines)
     twins.navigate(ir, tuple(tuple(s) for s in sub["steps"])).insert(sub["index"], marker)
     if sub.get("decoy"):
         # the same statement texts occur earlier in the program where they are valid (a block of its own defines the name)
         at = next((i for i, st in enumerate(ir) if st["k"] in ("org", "reloc")), -1) + 1
-        ir.insert(at, {"k": "raw", "lines": ["{", "undef_zz:"] + list(SEMANTIC.values()) + ["}"]})
+        ir.insert(at, {"k": "raw", "lines": ["{", "undef_zz:"] + [v for v in SEMANTIC.values() if "\n" not in v] + ["}"]})
     lay = _layout(case.get("layout_seed"))
     if lay is not None:
         # the faulty line itself must stay as written: line-level decorations are applied to other lines only
